@@ -1,4 +1,4 @@
-import StorageModel.Codec.Bucket
+import StorageModel.Codec.Time
 /- helper lemmas about the bucket model (no property theorems here) -/
 namespace StorageModel.Codec
 open StorageModel
